@@ -117,6 +117,27 @@ retry:
 	return errors.Wrap(s.client.PosixRename(tmpfile, name), "sftp:renaming "+tmpfile+" to "+name)
 }
 
+// isSFTPTempObject returns true for the names StoreObject uploads to before
+// renaming them into place: a chunk name followed by a random number.
+func isSFTPTempObject(base string) bool {
+	if len(base) <= 64 {
+		return false
+	}
+	if _, err := ChunkIDFromString(base[:64]); err != nil {
+		return false
+	}
+	rest := strings.TrimPrefix(base[64:], CompressedChunkExt)
+	if rest == "" {
+		return false
+	}
+	for _, r := range rest {
+		if r < '0' || r > '9' {
+			return false
+		}
+	}
+	return true
+}
+
 // Close terminates all client connections
 func (s *SFTPStoreBase) Close() error {
 	if s.cancel != nil {
@@ -234,6 +255,11 @@ func (s *SFTPStore) Prune(ctx context.Context, ids map[ChunkID]struct{}) error {
 			continue
 		}
 		path := walker.Path()
+		// Clean up what interrupted uploads left behind
+		if isSFTPTempObject(filepath.Base(path)) {
+			_ = c.client.Remove(path)
+			continue
+		}
 		// Skip compressed chunks if this is running in uncompressed mode and vice-versa
 		var sID string
 		if c.opt.Uncompressed {
